@@ -2,6 +2,7 @@ package rules
 
 import (
 	"fmt"
+	"go/token"
 	"go/types"
 	"strings"
 
@@ -397,4 +398,229 @@ func (c *coord) checkGCFirst(r *engine.Report) {
 	if n == 0 {
 		r.Add("R1.9-gc-first", "cycle", pkgCoord, "a function that calls the garbage collector", "none found", engine.Undecided)
 	}
+}
+
+// checkApplyJoined is R1.10: the step that posts the planned lists hands them to goroutines; the function that starts
+// them returns only after all of them have finished (it waits on their group itself, on every path). A post that is
+// still in flight when the next cycle plans from fresh reports lands after that cycle's own post and leaves a stale list.
+func (c *coord) checkApplyJoined(r *engine.Report) {
+	n := 0
+	for _, fn := range c.funcs {
+		if fn.Parent() != nil {
+			continue
+		}
+		fi := c.p.Info(fn)
+		var starts []ssa.Instruction
+		for _, in := range allInstrs(fn) {
+			var body *ssa.Function
+			switch x := in.(type) {
+			case *ssa.Go:
+				body = closureFn(x.Call.Value)
+				if body == nil {
+					body = x.Call.StaticCallee()
+				}
+			case *ssa.Call:
+				if callee := x.Call.StaticCallee(); callee != nil && callee.Name() == "Go" && callee.Pkg != nil && callee.Pkg.Pkg.Path() == "golang.org/x/sync/errgroup" && len(x.Call.Args) == 2 {
+					body = closureFn(x.Call.Args[1])
+				}
+			}
+			if body == nil || !c.reachesCallOf(body, c.mUpdateTarget, map[*ssa.Function]bool{}) {
+				continue
+			}
+			starts = append(starts, in)
+		}
+		if len(starts) == 0 {
+			continue
+		}
+		n++
+		var probs []string
+		for _, st := range starts {
+			joined := fi.MustPass(st, nil, func(in ssa.Instruction) bool {
+				call, ok := in.(*ssa.Call)
+				if !ok || call.Call.StaticCallee() == nil {
+					return false
+				}
+				callee := call.Call.StaticCallee()
+				if callee.Name() != "Wait" || callee.Pkg == nil {
+					return false
+				}
+				pp := callee.Pkg.Pkg.Path()
+				return pp == "golang.org/x/sync/errgroup" || pp == "sync"
+			})
+			if !joined {
+				probs = append(probs, "a path from the start of a posting goroutine ("+c.at(st)+") returns without waiting for it in this function")
+			}
+		}
+		r.Check(len(probs) == 0, "R1.10-apply-joined", "posting in "+engine.FuncName(fn), engine.FuncName(fn), "every posting goroutine is waited for before the function returns", strings.Join(probs, "; "))
+	}
+	if n == 0 {
+		// posting without goroutines is joined by construction
+		r.Add("R1.10-apply-joined", "posting", pkgCoord, "posting goroutines are waited for", "no goroutine posts target lists (posting is sequential)", engine.Discharged)
+	}
+}
+
+func closureFn(v ssa.Value) *ssa.Function {
+	switch x := v.(type) {
+	case *ssa.MakeClosure:
+		if f, ok := x.Fn.(*ssa.Function); ok {
+			return f
+		}
+	case *ssa.Function:
+		return x
+	}
+	return nil
+}
+
+// reachesCallOf: fn (or a function of the coordinator package it calls, or one of its closures) calls m.
+func (c *coord) reachesCallOf(fn *ssa.Function, m *types.Func, seen map[*ssa.Function]bool) bool {
+	if fn == nil || seen[fn] || fn.Blocks == nil {
+		return false
+	}
+	seen[fn] = true
+	for _, in := range allInstrs(fn) {
+		if ci, ok := in.(ssa.CallInstruction); ok {
+			if callee := ci.Common().StaticCallee(); callee != nil {
+				if callee.Object() == types.Object(m) {
+					return true
+				}
+				if engine.InPkg(callee, pkgCoord) && c.reachesCallOf(callee, m, seen) {
+					return true
+				}
+			}
+			for _, a := range ci.Common().Args {
+				if f := closureFn(a); f != nil && c.reachesCallOf(f, m, seen) {
+					return true
+				}
+			}
+		}
+		if mc, ok := in.(*ssa.MakeClosure); ok {
+			if f, ok := mc.Fn.(*ssa.Function); ok && c.reachesCallOf(f, m, seen) {
+				return true
+			}
+		}
+	}
+	return false
+}
+
+// checkPickWeights (R1.8, crash freedom of the random pick): the chooser is built with its error discarded and is nil
+// when every weight is zero, so the pick that follows would panic. Each weight must therefore be positive for every
+// shard that is offered: it is the room "limit - load" of a dimension whose fit test "load + requested < limit" holds
+// where the weight is computed (requested space is a series count, never negative).
+func (c *coord) checkPickWeights(r *engine.Report) {
+	p := c.p
+	spaceT := p.Named(pkgCoord, "space")
+	for _, fn := range c.funcs {
+		fi := p.Info(fn)
+		for _, in := range allInstrs(fn) {
+			call, ok := in.(*ssa.Call)
+			if !ok || call.Call.StaticCallee() == nil || call.Call.StaticCallee().Name() != "NewChooser" {
+				continue
+			}
+			// the error result is consulted? then a nil chooser is handled
+			errUsed := false
+			for _, rr := range *call.Referrers() {
+				if ex, ok := rr.(*ssa.Extract); ok && ex.Index == 1 && len(*ex.Referrers()) > 0 {
+					errUsed = true
+				}
+			}
+			if errUsed {
+				r.Add("R1.8-crash-freedom", "pick weights in "+engine.FuncName(fn), "chooser built at "+c.at(call), "a failed construction is handled or cannot happen", "the construction error is consulted", engine.Discharged)
+				continue
+			}
+			var probs []string
+			n := 0
+			for _, in2 := range allInstrs(fn) {
+				st, ok := in2.(*ssa.Store)
+				if !ok {
+					continue
+				}
+				fa, ok := st.Addr.(*ssa.FieldAddr)
+				if !ok || engine.FieldOf(fa).Name() != "Weight" || !strings.HasSuffix(fa.X.Type().String(), "weightedrand.Choice") {
+					continue
+				}
+				n++
+				if why := weightPositive(fi, spaceT, st.Val, st.Block(), 0); why != "" {
+					probs = append(probs, "weight at "+c.at(st)+": "+why)
+				}
+			}
+			if n == 0 {
+				probs = append(probs, "no weight assignment found for the choices")
+			}
+			r.Check(len(probs) == 0, "R1.8-crash-freedom", "pick weights in "+engine.FuncName(fn), "chooser built at "+c.at(call)+" with its error discarded",
+				"every offered shard has a positive weight: limit - load of a dimension whose fit test holds there (a chooser of zero weights is nil and the pick panics)", strings.Join(probs, "; "))
+		}
+	}
+}
+
+func weightPositive(fi *engine.FuncInfo, spaceT *types.Named, v ssa.Value, at *ssa.BasicBlock, depth int) string {
+	if depth > 4 {
+		return "too deep"
+	}
+	switch x := v.(type) {
+	case *ssa.Convert:
+		return weightPositive(fi, spaceT, x.X, at, depth+1)
+	case *ssa.ChangeType:
+		return weightPositive(fi, spaceT, x.X, at, depth+1)
+	case *ssa.Phi:
+		for i, e := range x.Edges {
+			if why := weightPositive(fi, spaceT, e, x.Block().Preds[i], depth+1); why != "" {
+				return why
+			}
+		}
+		return ""
+	case *ssa.BinOp:
+		if x.Op != token.SUB {
+			return "computed as " + short(fi.T(x).S) + ", not as limit - load"
+		}
+		limit, load := fi.T(x.X).S, fi.T(x.Y).S
+		for _, in := range allInstrs(fi.Fn) {
+			cmp, ok := in.(*ssa.BinOp)
+			if !ok || cmp.Op != token.LSS || fi.T(cmp.Y).S != limit {
+				continue
+			}
+			add, ok := cmp.X.(*ssa.BinOp)
+			if !ok || add.Op != token.ADD {
+				continue
+			}
+			for k, o := range []ssa.Value{add.X, add.Y} {
+				if fi.T(o).S != load {
+					continue
+				}
+				other := []ssa.Value{add.Y, add.X}[k]
+				if !isFieldOfNamed(other, spaceT) {
+					continue
+				}
+				need := fi.Cond(cmp)
+				if ok, _ := fi.Implies(at, need); ok {
+					return ""
+				}
+				// the fit test may sit behind another test ("limit not set, or it fits"): keep every branch condition
+				if v := fi.ViewAll(need, nil); v != nil {
+					if ok, _ := v.Implies(at, need); ok {
+						return ""
+					}
+				}
+			}
+		}
+		return short(fi.T(x).S) + " is not known to be positive here (no fit test 'load + requested < limit' of that dimension holds)"
+	}
+	return "computed as " + short(fi.T(v).S) + ", not as limit - load"
+}
+
+// isFieldOfNamed: v is a load of a field of a value of the named struct type.
+func isFieldOfNamed(v ssa.Value, n *types.Named) bool {
+	u, ok := v.(*ssa.UnOp)
+	if !ok || n == nil {
+		return false
+	}
+	fa, ok := u.X.(*ssa.FieldAddr)
+	if !ok {
+		return false
+	}
+	t := fa.X.Type()
+	if pt, ok := t.Underlying().(*types.Pointer); ok {
+		t = pt.Elem()
+	}
+	nn, ok := t.(*types.Named)
+	return ok && nn.Obj() == n.Obj()
 }
